@@ -22,6 +22,7 @@ import ast
 import itertools
 
 from ..astutil import AnalysisError, dotted, src, walk_local
+from .. import pattern as P
 from ..absint import Interp, BV, Bit, Opaque, TypeTok, Reject
 from ..rules import shape
 
@@ -295,17 +296,17 @@ def rule_width(run):
     for fn in ("count_set_bits", "count_clear_bits"):
         f = mod.func(fn)
         rw = [a for a in walk_local(f.node) if isinstance(a, ast.Assign) and dotted(a.targets[0]) == "result_width"]
-        ok = len(rw) == 1 and src(rw[0].value) == "vector.width.bit_length()"
+        ok = len(rw) == 1 and P.T(rw[0].value) == "vector.width.bit_length()"
         run.ob(ok, fn, file=mod.rel, line=f.node.lineno, detail="result-width", expected="vector.width.bit_length()", found=src(rw[0].value) if rw else "missing")
-        t = src(f.node)
+        t = P.T(f.node)
         ok = "batched(vector, batch_size, allow_partial=True)" in t and "batched_fold(_safe_add_unsigned, set_cnt)" in t
         run.ob(ok, fn, file=mod.rel, line=f.node.lineno, detail="sum-of-batches", expected="sum of the per-batch counts over all (incl. partial) batches with widening adders", found="ok" if ok else "changed")
     for fn, expr in (("_set_bit_map", "nr.bit_count()"), ("_clear_bit_map", "w - nr.bit_count()")):
         f = mod.func(fn)
-        ok = f"T({expr})" in src(f.node) and "range(2 ** w)" in src(f.node)
+        ok = f"T({expr})" in P.T(f.node) and "range(2 ** w)" in P.T(f.node)
         run.ob(ok, fn, file=mod.rel, line=f.node.lineno, detail="table", expected=f"{{nr: T({expr}) for nr in range(2**w)}}", found="ok" if ok else "changed")
     sa = mod.func("_safe_add_unsigned_target")
-    ok = "Unsigned[max(a.width, b.width) + 1]" in src(sa.node)
+    ok = "Unsigned[max(a.width, b.width) + 1]" in P.T(sa.node)
     run.ob(ok, "_safe_add_unsigned_target", file=mod.rel, line=sa.node.lineno, detail="no-overflow", expected="max(width) + 1", found="ok" if ok else "changed")
     run.end()
 
@@ -343,7 +344,7 @@ def rule_crc(run):
     b = [src(s).replace("prev", "PREV").replace("first", "FIRST") for s in cs.node.body[1:3]]
     ok = a == b
     run.ob(ok, "BitwiseCrc.update", file=mod.rel, line=up.node.lineno, detail="same-step", expected="same condition and shift as one step of _calc_steps", found="ok" if ok else f"{a} vs {b}")
-    t = src(cs.node)
+    t = P.T(cs.node)
     ok = "shifted ^ self._poly if cond else shifted" in t and "self._calc_steps(result, *rest)" in t and "prev.lsb(rest=1) @ Bit(0)" in t and "cond = prev.msb() ^ first" in t
     run.ob(ok, "BitwiseCrc._calc_steps", file=mod.rel, line=cs.node.lineno, detail="division-step", expected="shift left by one, xor the polynomial when msb ^ data, continue with the remaining bits in order", found="ok" if ok else "changed")
     run.end()
